@@ -41,6 +41,7 @@ A64Jump(e) ==
       r2 == A!Run64(trampS, e.tramp)
   IN /\ ~Unknown(r1) /\ ~Unknown(r2)
      /\ Req("C15", r1.status \in {"left", "unknown"} /\ (r1.status = "left" => r1.pc = e.tramp))
+     /\ Req("C11", r1.status \in {"left", "unknown"} /\ (r1.status = "left" => r1.pc = e.tramp))
      /\ Req("C15", r1.status = "left" => r1.written \subseteq A!A64Scratch)
      /\ IF e.kind = "bool"
         THEN /\ Req("C15", r2.status \in {"ret", "unknown"})
@@ -80,6 +81,8 @@ X64Jump(e) ==
      /\ IF e.kind = "bool"
         THEN Req("C01", r.status \in {"ret", "unknown"}) /\ Req("C10", r.status = "ret" => r.rax = FromNat(e.v, 8))
         ELSE /\ Req("C01", r.status \in {"left", "unknown"} /\ (r.status = "left" => r.pc = e.fake))
+             \* C11: the placement the allocator accepted is within reach of the branch the encoder then writes
+             /\ Req("C11", r.status \in {"left", "unknown"} /\ (r.status = "left" => r.pc = e.fake))
              /\ Req("C13", r.status = "left" => r.written \subseteq X!X64Scratch)
      /\ Req("C01", e.guard.some /\ e.guard.func = e.src /\ e.guard.saved = Slice(e.before, 1, e.guard.size))
      /\ Req("C03", \A i \in 1..16 : i > e.guard.size => e.entry[i] = e.before[i])
